@@ -165,7 +165,11 @@ fn inject_and_run(conn: &mut Conn<'_, '_>, op: u64, idx: u64, fault: u64, kind: 
         dead_handle_probe(conn);
     } else if !conn.is_connected() {
         // (after disconnect() - op 8 - the handle may be closed whatever it returned)
-        let ok = matches!(res, Res::PacketTooLarge) && op <= 2 || op == 8;
+        let ack_pending = with(|w| {
+            let c = &w.conns[w.cur];
+            c.max_packet_size.is_some_and(|m| m < 6) && (!c.owed_acks.is_empty() || !c.carry_acks.is_empty())
+        });
+        let ok = matches!(res, Res::PacketTooLarge) && (op <= 2 || ack_pending) || op == 8;
         if !ok {
             with(|w| {
                 w.violate(
